@@ -65,6 +65,7 @@ import (
 	"context"
 	"fmt"
 	"math/rand"
+	"os"
 	"regexp"
 	"runtime"
 	"strconv"
@@ -76,6 +77,7 @@ import (
 
 	"github.com/robinbraemer/event"
 	jconfig "go.minekube.com/gate/pkg/edition/java/config"
+	cfgpacket "go.minekube.com/gate/pkg/edition/java/proto/packet/config"
 	"go.minekube.com/gate/pkg/edition/java/proto/state/states"
 	"go.minekube.com/gate/pkg/edition/java/proxy"
 	"go.minekube.com/gate/pkg/edition/java/proxy/message"
@@ -388,7 +390,23 @@ func (s *sess) firstJoinAndSwitch() {
 	s.desc["registered_channel"], s.desc["settle"] = registered, settle
 	r.LogCase(s.desc)
 
-	s.c = h.NewClient(e2e.ClientOpts{Protocol: s.pv})
+	// a slow client: while holdAck is set, the acknowledgement of a configuration-phase
+	// FinishedUpdate waits for ackGate
+	var holdAck atomic.Bool
+	ackSeen, ackGate := make(chan struct{}), make(chan struct{})
+	defer func() {
+		select {
+		case <-ackGate:
+		default:
+			close(ackGate)
+		}
+	}()
+	s.c = h.NewClientWithHook(e2e.ClientOpts{Protocol: s.pv}, func(_ *e2e.Client, rc *e2e.Rec) {
+		if _, ok := rc.Packet.(*cfgpacket.FinishedUpdate); ok && rc.State == states.ConfigState && holdAck.Load() {
+			close(ackSeen)
+			<-ackGate
+		}
+	})
 	defer s.c.Close()
 	_ = s.c.Handshake("example.com", 25565, 2)
 	_ = s.c.LoginStart(s.name)
@@ -479,6 +497,14 @@ func (s *sess) firstJoinAndSwitch() {
 	grace(gc1, sent, judged)
 	got, sts := received(gc1)
 	fs := judge("config-first-join", sent, got, judged, nil)
+	if len(fs) > 0 && os.Getenv("C24_DEBUG") != "" {
+		for _, rc := range gc1.Log() {
+			fmt.Fprintf(os.Stderr, "DBG backend-one log %s at=%d len=%d %.50q\n", rc.String(), rc.At, len(rc.Payload), rc.Payload)
+		}
+		for _, rc := range s.c.Log() {
+			fmt.Fprintf(os.Stderr, "DBG client log %s at=%d len=%d\n", rc.String(), rc.At, len(rc.Payload))
+		}
+	}
 	s.report("config-first-join", fs, sent, got)
 	cfgDelivered := 0
 	for _, st := range sts {
@@ -501,7 +527,7 @@ func (s *sess) firstJoinAndSwitch() {
 	// ---- switch to backend two -------------------------------------------------------
 	s.resetSent()
 	nSwitch := []int{1, 2, 6, 20}[s.rng.Intn(4)]
-	nSwitchLate := s.rng.Intn(4)
+	nSwitchLate := s.rng.Intn(4) // sent after the backend finished configuration, before the client acknowledged
 	s.desc["switch_config_messages"] = nSwitch + nSwitchLate
 	r.LogCase(s.desc)
 	pl := h.P.PlayerByName(s.name)
@@ -529,7 +555,17 @@ func (s *sess) firstJoinAndSwitch() {
 	}
 	for i := 0; i < nSwitch+nSwitchLate; i++ {
 		if i == nSwitch {
-			time.Sleep(time.Millisecond)
+			// the backend finishes its configuration; the (slow) client has received
+			// FinishedUpdate but not acknowledged it yet, so it is still in configuration and
+			// what it sends now still belongs to the configuration phase
+			holdAck.Store(true)
+			gc2.Release(e2e.StageConfig)
+			select {
+			case <-ackSeen:
+			case <-time.After(e2e.Watchdog):
+				r.Inconclusive(fmt.Sprintf("session %d: the backend's FinishedUpdate never reached the client", s.n))
+				return
+			}
 		}
 		if _, err := s.send("early", s.pickChannel(false), s.pickSize()); err != nil {
 			r.Inconclusive(fmt.Sprintf("session %d: send failed during switch: %v", s.n, err))
@@ -537,6 +573,7 @@ func (s *sess) firstJoinAndSwitch() {
 		}
 		s.yield()
 	}
+	close(ackGate)
 	joinHeld(gc2)
 	<-connDone
 	if !s.c.AwaitJoinCount(2, e2e.Watchdog) || !h.AwaitCurrentServer(s.name, "two", e2e.Watchdog) {
